@@ -823,17 +823,8 @@ func (c *Ctx) checkShiftOffsets(fn *ssa.Function) {
 			bo, ok := st.Val.(*ssa.BinOp)
 			good := ok && bo.Op == token.SUB && bo.Y == delta && isFieldRead(bo.X, "pos")
 			if good {
-				// dominated by ¬(pos < δ)
-				guarded := false
-				for _, cd := range fi.condsAt(b) {
-					cd = unNot(cd)
-					if cmp, ok := cd.V.(*ssa.BinOp); ok && cmp.Op == token.LSS && cmp.Y == delta && isFieldRead(cmp.X, "pos") && !cd.True {
-						guarded = true
-					}
-					if cmp, ok := cd.V.(*ssa.BinOp); ok && cmp.Op == token.GEQ && cmp.Y == delta && isFieldRead(cmp.X, "pos") && cd.True {
-						guarded = true
-					}
-				}
+				// dominated by pos ≥ δ in any spelling (¬(pos < δ), δ ≤ pos, …): decided on the facts
+				guarded := fi.proveLE(fi.lin(delta).sub(fi.lin(bo.X)), b, nil)
 				good = guarded
 			}
 			c.check(good, key, st.Pos(), "pos = pos − δ under pos ≥ δ", "a position is re-based by something other than pos − δ guarded by pos ≥ δ")
